@@ -56,4 +56,7 @@ func init() {
 	c15Redirect(repo+"iplddecoders.DecodeBlock", "c15Model_DecodeBlock")
 	c15Redirect(repo+"solana-tx-meta-parsers.ParseTransactionStatusMetaContainer", "c15Model_ParseMeta")
 	c15Redirect("github.com/gagliardetto/binary.UnmarshalBin", "c15Model_UnmarshalBin")
+	// C15.open: the reflection-driven CBOR codec of the CAR header (table over canonical headers)
+	c15Redirect("github.com/ipfs/go-ipld-cbor.DecodeInto", "c15Model_cborDecodeInto")
+	c15Redirect("github.com/ipld/go-car.WriteHeader", "c15Model_WriteHeader")
 }
